@@ -71,6 +71,7 @@ def draw_knobs(rng: Rng, profile: str):
         n_bad_clients=kr.pick([1, 1, 2, 3]) if p["client_faults"] else 0,
         reset_on_drain=kr.chance(0.6),
         children=False,
+        hash_salt=kr.randrange(1 << 30),
     )
     return knobs
 
@@ -102,7 +103,7 @@ class PoolScenario:
         kn = self.knobs
         plan = {"code": 0}
         if r.chance(kn["p_fail_code"]):
-            plan["code"] = r.pick([1, 1, 2, 127, 255])
+            plan["code"] = r.pick([1, 1, 2, 127, 255, -11, -15, -9])
         size = r.pick([0, 0, 5, 100]) if not kn["big_output"] else r.pick([0, 5, 8192, 70000])
         plan["out_len"] = size
         plan["err_len"] = r.pick([0, 0, 3, size])
@@ -154,7 +155,7 @@ class PoolScenario:
             f = w.tasks_by_k[k]
             if f.tid is None:
                 continue
-            st = w.sched.task_states[f.tid].name
+            st = w.st_name(f.tid)
             p = f.procs[-1] if f.procs else None
             if p is not None:
                 starting = p._started is not None and not p._started.done()
@@ -300,7 +301,7 @@ class PoolScenario:
 
     def run(self):
         kn = self.knobs
-        w = PoolWorld(self.trace, kn["cores"], self.props)
+        w = PoolWorld(self.trace, kn["cores"], self.props, hash_salt=kn.get("hash_salt", 0))
         self.world = w
         try:
             with w:
@@ -347,7 +348,22 @@ class PoolScenario:
     # -- results -------------------------------------------------------------------------------
     def result(self):
         w = self.world
-        nontrivial = bool(w.probes.get("at_core_limit")) or bool(w.tasks_by_tid)
+        facts = list(w.tasks_by_tid.values())
+        if w.memfs is not None:
+            for base, at in w.memfs.fired:
+                w.fault("log_" + at + "_error")
+        for p in w.table.procs.values():
+            if p.plan.get("spawn_wait"):
+                w.fault("slow_spawn")
+            if p.sigkill and p.exited_at is not None and p.returncode == -9:
+                w.probe("killed_processes")
+        nt = {
+            "C11": any(f.dep_tids for f in facts),
+            "C12": bool(w.probes.get("at_core_limit")) and len(facts) > w.cores,
+            "C13": any(f.final not in (None, "COMPLETED") for f in facts) or len(facts) >= 2,
+            "C14": bool(w.faults) and bool(w.probes.get("state_queries")),
+        }
+        nontrivial = all(nt[p] for p in self.props if p in nt)
         return dict(
             seed=self.seed,
             knobs=self.knobs,
